@@ -164,30 +164,36 @@ fn main() {
             let thorough = tier == "thorough";
             let mut run = Run::new();
             run.ticker = Some(Rng::new(seed ^ 0x71c4_71c4));
+            // a generator that cannot continue (the implementation left the envelope it assumes, e.g. a construction it
+            // expects to fail succeeded) must not lose what was executed so far: the partial trace is written and compared,
+            // and the process exits with code 3
+            let aborted = std::panic::catch_unwind(std::panic::AssertUnwindSafe(|| {
             match prop.as_str() {
-                "C01" => gwgen::gen_c01(&mut run, seed, thorough),
-                "C02" => gwgen::gen_c02(&mut run, seed, thorough),
-                "C03" => gwgen::gen_c03(&mut run, seed, thorough),
-                "C08" => gwgen::gen_c08(&mut run, seed, thorough),
-                "C09" => gwgen::gen_c09(&mut run, seed, thorough),
-                "C13" => gwgen::gen_c13(&mut run, seed, thorough),
-                "C12" => tkgen::gen_c12(&mut run, seed, thorough),
-                "C14" => gsgen::gen_c14(&mut run, seed, thorough),
-                "C17" => ops::gen_c17(&mut run, seed, thorough),
-                "C15" => up::gen_c15(&mut run, seed, thorough),
-                "C16" => ex::gen_c16(&mut run, seed, thorough),
-                "C10" => abi::gen_c10(&mut run, seed, thorough),
-                "C06" => matrix::gen_c06(&mut run, seed, thorough),
-                "C07" => matrix::gen_c07(&mut run, seed, thorough),
-                "C04" => itsgen::gen_c04(&mut run, seed, thorough),
-                "C05" => itsgen::gen_c05(&mut run, seed, thorough),
-                "C11" => itsgen::gen_c11(&mut run, seed, thorough),
-                "C18" => itsgen::gen_c18(&mut run, seed, thorough),
-                other => {
-                    eprintln!("no generator for {other}");
-                    std::process::exit(2);
+                    "C01" => gwgen::gen_c01(&mut run, seed, thorough),
+                    "C02" => gwgen::gen_c02(&mut run, seed, thorough),
+                    "C03" => gwgen::gen_c03(&mut run, seed, thorough),
+                    "C08" => gwgen::gen_c08(&mut run, seed, thorough),
+                    "C09" => gwgen::gen_c09(&mut run, seed, thorough),
+                    "C13" => gwgen::gen_c13(&mut run, seed, thorough),
+                    "C12" => tkgen::gen_c12(&mut run, seed, thorough),
+                    "C14" => gsgen::gen_c14(&mut run, seed, thorough),
+                    "C17" => ops::gen_c17(&mut run, seed, thorough),
+                    "C15" => up::gen_c15(&mut run, seed, thorough),
+                    "C16" => ex::gen_c16(&mut run, seed, thorough),
+                    "C10" => abi::gen_c10(&mut run, seed, thorough),
+                    "C06" => matrix::gen_c06(&mut run, seed, thorough),
+                    "C07" => matrix::gen_c07(&mut run, seed, thorough),
+                    "C04" => itsgen::gen_c04(&mut run, seed, thorough),
+                    "C05" => itsgen::gen_c05(&mut run, seed, thorough),
+                    "C11" => itsgen::gen_c11(&mut run, seed, thorough),
+                    "C18" => itsgen::gen_c18(&mut run, seed, thorough),
+                    other => {
+                        eprintln!("no generator for {other}");
+                        std::process::exit(2);
+                    }
                 }
-            }
+            }))
+            .is_err();
             let mut f = std::io::BufWriter::new(std::fs::File::create(out).expect("create out"));
             writeln!(f, "# property={prop} tier={tier} seed={seed} ops={}", run.ops).unwrap();
             for l in &run.tr.lines {
@@ -195,6 +201,12 @@ fn main() {
             }
             let dist: Vec<String> = run.tr.classes.iter().map(|(k, v)| format!("{k}={v}")).collect();
             writeln!(f, "# classes {}", dist.join(" ")).unwrap();
+            if aborted {
+                writeln!(f, "# generator-aborted after {} operations", run.ops).unwrap();
+                drop(f);
+                eprintln!("generator aborted after {} operations (partial trace written)", run.ops);
+                std::process::exit(3);
+            }
         }
         "replay" => {
             let inp = std::fs::read_to_string(&args[2]).expect("read in");
